@@ -405,6 +405,8 @@ class Region:
         self.text = ''
         self.changed = False          # repo text differs from the annotated baseline
         self.renamed = False
+        self.stubbed = False
+        self.stub_reason = ''
         self.implicit = []            # properties that own the implicit obligations (default C17/C18)
         self.n_exec = 0
         self.n_changed_tokens = 0
@@ -414,6 +416,43 @@ class Region:
         self.log = []
         self.out_line0 = 0            # first line in assembled file (filled by caller)
         self.repo_line0 = 0
+
+
+def stub_region(args, body, reason):
+    """A region whose repository text can no longer carry the template's ghost text (lost anchor, syntax of the transplant):
+    the function is replaced by an external_body stub with the TEMPLATE's signature and contract, so that the rest of the unit
+    can still be verified.  Every property the region serves is reported UNDECIDED by the runner (never OK, never a violation)."""
+    r = Region()
+    r.file, r.kind, r.key = args[0], args[1], args[2]
+    opts = dict(a.split('=', 1) for a in args[3:])
+    r.props = [p for p in opts.get('props', '').split(',') if p]
+    r.implicit = [p for p in opts.get('implicit', '').split(',') if p]
+    r.changed = True
+    r.stubbed = True
+    r.stub_reason = reason
+    toks = tokenize(body)
+    k = 0
+    while k < len(toks) and not is_id(toks[k], 'fn'):
+        k += 1
+    j = k
+    cut = None
+    while j < len(toks):
+        t = toks[j]
+        if t.kind == 'p' and t.text in '([':
+            j = match_close(toks, j)
+        elif is_p(t, '{'):
+            cut = t.start
+            break
+        elif is_p(t, ';'):
+            break
+        j += 1
+    if k >= len(toks) or cut is None:
+        raise AssembleError('cannot stub %s %s: %s' % (r.file, r.key, reason))
+    # attributes / visibility before `fn` stay; explicit markers are harmless comments
+    head = body[:cut]
+    r.text = '#[verifier::external_body]\n' + head + '{ unimplemented!() } // STUBBED: ' + reason.replace('\n', ' ')[:200] + '\n'
+    r.log.append('STUBBED (not verified in this run): ' + reason)
+    return r
 
 
 def crate_mod_of(path):
@@ -719,7 +758,7 @@ def build_from_variants(args, features):
 DIRECTIVE = re.compile(r'^\s*//@(\w+)\s*(.*)$')
 
 
-def assemble(fragments, features, out_path):
+def assemble(fragments, features, out_path, stub_keys=()):
     """fragments: list of template file paths. Returns (regions, info)."""
     regions = []
     out = []
@@ -774,9 +813,16 @@ def assemble(fragments, features, out_path):
                     raise AssembleError('%s:%d //@repo without //@end' % (frag, i + 1))
                 body = '\n'.join(lines[i + 1:j]) + '\n'
                 try:
-                    r = build_region(rest, body, features)
+                    if (rest[0], rest[2]) in stub_keys and rest[1] == 'fn':
+                        r = stub_region(rest, body, 'the transplanted ghost text does not compile on the current repository text')
+                    else:
+                        r = build_region(rest, body, features)
                 except TokError as e:
                     raise AssembleError('%s:%d %s' % (frag, i + 1, e))
+                except AssembleError as e:
+                    if rest[1] != 'fn' or 'lost anchor' not in str(e) and 'erasure' not in str(e):
+                        raise
+                    r = stub_region(rest, body, str(e))
                 r.template = frag
                 emit('// >>> %s %s %s (repo line %d)%s\n' % (r.file, r.kind, r.key, r.repo_line0, ' [CHANGED]' if r.changed else ''))
                 r.out_line0 = line_no
